@@ -11,7 +11,7 @@ func compressJobs(tier, prop string) []*Job {
 	thorough := tier == "thorough"
 	nf, nh := 19, 17 // largest source length: fast / HC
 	if thorough {
-		nf, nh = 23, 20
+		nf, nh = 21, 18
 	}
 	addP := func(n, kind, depth, dl, period, tail int, tags string) {
 		cfg := "go"
@@ -28,8 +28,8 @@ func compressJobs(tier, prop string) []*Job {
 		ns := []int{31, 64, 300}
 		periods := []int{1, 2, 3}
 		if thorough {
-			ns = []int{24, 27, 31, 32, 40, 48, 64, 100, 300, 560}
-			periods = []int{1, 2, 3, 4}
+			ns = []int{24, 31, 40, 64, 100, 300, 560}
+			periods = []int{1, 2, 3}
 		}
 		for _, n := range ns {
 			for _, period := range periods {
@@ -201,7 +201,7 @@ func detJobs(tier string) []*Job {
 	var jobs []*Job
 	nf, nh := 18, 16
 	if tier == "thorough" {
-		nf, nh = 22, 19
+		nf, nh = 20, 17
 	}
 	addP := func(n, ka, kb, depth, dl, period, tail int) {
 		j := mkJob(fmt.Sprintf("det-n%d-k%dv%d-d%d-dl%d-p%d.%d", n, ka, kb, depth, dl, period, tail), "H_compress_det", "internal/lz4block", "verif,noasm", P("n", n, "kindA", ka, "kindB", kb, "depth", depth, "dl", dl, "period", period, "tail", tail))
@@ -302,7 +302,7 @@ func compressBounds(prop string) func(string) []string {
 	return func(tier string) []string {
 		nf, nh := 19, 17
 		if tier == "thorough" {
-			nf, nh = 23, 20
+			nf, nh = 21, 18
 		}
 		switch prop {
 		case "C10":
@@ -312,12 +312,12 @@ func compressBounds(prop string) func(string) []string {
 		case "C14":
 			nf, nh = 18, 16
 			if tier == "thorough" {
-				nf, nh = 22, 19
+				nf, nh = 20, 17
 			}
 		}
 		return []string{
 			fmt.Sprintf("every source content (all bytes symbolic) at each length 0..%d for the fast compressor and 0..%d for the HC compressor (depths 0, 1, 2, 3, 512, 65537)", nf, nh),
-			"periodic family: sources of 24..300 (thorough ..560) bytes = a symbolic first period (1,2,3 bytes; thorough 4) repeated, plus 0..13 free symbolic bytes at the end (0..5 for reused-state and HC runs) (long matches, multi-byte length codes, matches running into the last 5/12 bytes)",
+			"periodic family: sources of 24..300 (thorough ..560) bytes = a symbolic first period (1,2,3 bytes) repeated, plus 0..13 free symbolic bytes at the end (0..5 for reused-state and HC runs) (long matches, multi-byte length codes, matches running into the last 5/12 bytes)",
 			"literal-run family: a literal run of exactly l concrete repeat-free bytes (l around 15 and 15+255: 13..17, 30, 269..271) followed by a match and 0/2 symbolic bytes, with destination lengths 0..5, l..l+8, n/2, bound-2..bound (C11)",
 			"history family (C14): the same object first compresses another (periodic) source into a destination that is too short (or large enough), then the source under test; compared with a fresh object",
 			"window family (C01): sources of 65.6 KB (concrete periodic filler) containing the same 8-byte window twice at a distance of 65534/65535/65536/65537 bytes, placed so that the scan probes the second copy; fast (fresh, reused) and HC; both decoders",
